@@ -390,10 +390,21 @@ func runC11(c *Ctx) {
 			params = p + ", " + q
 		}
 		var text string
+		// the renamed name also free in the same expression, spelled like the parameter or otherwise: before, after and as an
+		// argument of the function
+		free := Pick(r, []string{"1", "1", "foo", "foo", "Foo", p})
 		if strings.Contains(params, ",") {
-			text = fmt.Sprintf("((%s) => %s)(5, 7)", params, body)
+			text = fmt.Sprintf("((%s) => %s)(%s, 7)", params, body, free)
 		} else {
-			text = fmt.Sprintf("foreach(array(1, 2), (%s) => %s)", params, body)
+			text = fmt.Sprintf("foreach(array(%s, 2), (%s) => %s)", free, params, body)
+		}
+		if !strings.Contains(body, ".name") {
+			switch r.Intn(4) {
+			case 0:
+				text = "foo & " + text
+			case 1:
+				text = text + " & foo"
+			}
 		}
 		tpl := "r=@(" + text + ")" + Pick(r, []string{"", " @foo", " @(foo + 1)", " @(FOO)"})
 		val := types.XValue(types.RequireXNumberFromString("40"))
